@@ -114,6 +114,14 @@ CHECKS["C19"] = dict(
     ref="DESIGN.md §3.7, §5 C19",
 )
 
+CHECKS["C07"] = dict(
+    level="exploration",
+    text="Runtime monitoring of the real generator (ResourceTransformer.process in a subprocess, stand-ins for jinja2/toposort/click/ruff validated by shims/selftest.py) on seeded hostile source sets - XSD sets over a hostile name alphabet and the full structural fragment, DTDs, WSDLs, irregular XML/JSON sample sets - crossed with random output options. Observed per run: outcome class (own CodegenError vs arbitrary exception, timeout), every generated file compiled, AST scan for duplicate classes per scope / duplicate fields / duplicate __all__, import of every module, XmlContext.build_recursive and instantiation of every class (outer and inner), enum members. Held on the executions produced.",
+    note="Trusted: the codegen stand-ins in /verif/shims (self-tested against recorded upstream outputs), libxml2 (the generated schemas/DTDs are validated before use). Four open known findings (identifier collisions the duplicate detection cannot see) have dedicated probes with counterfactuals; their triggers are kept out of the random population.",
+    technique="runtime monitoring: generated hostile inputs x options through the real pipeline, post-conditions checked on the generated package in a fresh interpreter",
+    ref="DESIGN.md §5 C07",
+)
+
 FIX_COMMITS = []  # guarded hook commits in /repo (none: all hooks are installed from the harness side)
 
 
